@@ -8,19 +8,19 @@ force = set(sys.argv[1:])
 results = {}
 if os.path.exists("/tmp/seed/results.txt"):
     for l in open("/tmp/seed/results.txt"):
-        m = re.match(r"/tmp/seed/(C\d+)(-r2)?/out/(\d) :: (.*?) :: (\d+) violations ::\s*(.*)", l.strip())
+        m = re.match(r"/tmp/seed/(C\d+)(-r2|-r3)?/out/(\d) :: (.*?) :: (\d+) violations ::\s*(.*)", l.strip())
         if m:
-            n_ = int(m.group(3)) + (2 if m.group(2) else 0)
+            n_ = int(m.group(3)) + {None: 0, "-r2": 2, "-r3": 4}[m.group(2)]
             results["%s-%d" % (m.group(1), n_)] = {"runs": m.group(4).strip(), "violations": int(m.group(5)), "signatures": [x.strip() for x in (m.group(6).split("|") if "|" in m.group(6) else m.group(6).split()) if x.strip()]}
 head = subprocess.run(["git", "-C", "/repo", "rev-parse", "--short", "HEAD"], capture_output=True, text=True).stdout.strip()
 for job in sorted(os.listdir("/tmp/seed")):
-    mj = re.match(r"(C\d+)(-r2)?$", job)
+    mj = re.match(r"(C\d+)(-r2|-r3)?$", job)
     if not mj:
         continue
     pid = mj.group(1)
     for n in ("1", "2"):
         d = "/tmp/seed/%s/out/%s" % (job, n)
-        key = "%s-%d" % (pid, int(n) + (2 if mj.group(2) else 0))
+        key = "%s-%d" % (pid, int(n) + {None: 0, "-r2": 2, "-r3": 4}[mj.group(2)])
         if not os.path.exists(d + "/patch.diff"):
             continue
         if notes.get(key, {}).get("retired"):
